@@ -144,8 +144,14 @@ def check(col: Collector, tier: str):
     en = [c for c in ast.walk(gfn) if isinstance(c, ast.ListComp) and "enumerate(values.values())" in src(c)]
     col.add("C03.R3", gar.short, "one-default-name-per-tuple-element", len(en) == 1, "names must be generated by enumerating all tuple values", gar.loc)
     col.add("C03.R3", gar.short, "bare-value-is-col1", '"col1"' in shapes, f"templates {sorted(set(shapes))}", gar.loc)
-    n_tree = sum(1 for s in shapes if s == '"{self._prefix}_tree"')
-    col.add("C03.R3", gar.short, "default-tree-name", n_tree == 3, f"'<prefix>_tree' must be the default tree name in all three terminal forms ({n_tree})", gar.loc)
+    # every ResultTTree call that get_as_ROOT builds (one per terminal form, or one shared tail) names the tree "<prefix>_tree"
+    rt = [c for c in ast.walk(gfn) if isinstance(c, ast.Call) and call_name(c) == "function_call" and c.args and const_str(c.args[0]) == "ResultTTree"
+          and len(c.args) > 1 and isinstance(c.args[1], ast.List) and len(c.args[1].elts) >= 3]
+    tree_args = ["".join(shape(parts(gfn, x.args[0]))) if isinstance(x, ast.Call) and src(x.func) == "ast.parse" and x.args else src(x)
+                 for c in rt for x in [next((y for y in ast.walk(c.args[1].elts[2]) if isinstance(y, ast.Call) and src(y.func) == "ast.parse"), c.args[1].elts[2])]]
+    n_tree = sum(1 for t in tree_args if t == '"{self._prefix}_tree"')
+    col.add("C03.R3", gar.short, "default-tree-name", len(rt) >= 1 and n_tree == len(rt),
+            f"'<prefix>_tree' must be the default tree name in every terminal form ({n_tree} of {len(rt)} ResultTTree calls: {tree_args})", gar.loc)
     dk = "col_names = ast.List(elts=list(values.value_dict.keys()))" in src(gfn) and "col_values = values.value_dict.values()" in src(gfn) \
         and "crep.cpp_tuple(tuple(col_values), values.scope())" in src(gfn)
     col.add("C03.R3", gar.short, "dict-names-and-values-from-the-same-dict-in-order", dk, "keys() and values() of the same value_dict, both complete", gar.loc)
